@@ -741,6 +741,8 @@ pub struct Inner {
     pub log_storage_gets: bool,
     /// the installer issues all its progress reports at once (joined) instead of one after the other
     pub concurrent_progress: bool,
+    /// both clocks advance by this much when an HTTP exchange completes (0 = exchanges take no time)
+    pub http_latency_ns: i128,
 }
 
 pub type W = Arc<Mutex<Inner>>;
@@ -870,6 +872,7 @@ pub fn new_world(director: Box<dyn Director>, blocking: Blocking, store: Store) 
         last_offered: 0,
         log_storage_gets: false,
         concurrent_progress: false,
+        http_latency_ns: 0,
     }))
 }
 
@@ -1206,7 +1209,13 @@ impl HttpRequest for VHttp {
         let w = self.0.clone();
         async move {
             maybe_block(&w, |b| b.http, OpKind::Http, idx as u64).await;
-            w.lock().unwrap().log.push(Obs::Resp(idx, ans.clone()));
+            {
+                let mut g = w.lock().unwrap();
+                let lat = g.http_latency_ns;
+                g.clock.wall += lat;
+                g.clock.mono += lat;
+                g.log.push(Obs::Resp(idx, ans.clone()));
+            }
             match ans {
                 HttpAns::Transport => Err(http_request::mock_errors::make_transport_error()),
                 HttpAns::Timeout => Err(http_request::Error::new_timeout()),
